@@ -15,7 +15,9 @@
        released afterwards, one instruction per atomic decrement)                            [IPromote IBan IEvict, AStart OSetCap]
      - atomic.AddInt32(&n.ref,-1)                                                             [IDec]
      - the "== 0" branch: Cache.delete(n) — look the key up again and re-check ref == 0 under the
-       bucket lock, then finalise + delFuncs — or, on a closed cache, n.callFinalizer()      [IZero]
+       bucket lock, then finalise + delFuncs — or, on a closed cache, re-read the count and, if it
+       is still 0, n.callFinalizer() (the re-read is the repair "fix: cache: finalise ... only at
+       zero references"; [exec_old] below is the behaviour before it)                          [IZero]
      - Handle creation / the CAS of Handle.Release                                            [IHandle, AStart ORelease]
      - Close(false): closed := true under Cache.mu.Lock — enabled only when no goroutine holds RLock —
        then one lru.Evict per node                                                            [AStart OClose, IEvict]
@@ -86,6 +88,13 @@ Definition evict_locked (nid : N) (s : state) : state * list N :=
 
 Definition decs (ext : bool) (ev : list N) : list instr := map (fun x => IDec x ext) ev.
 
+(* unRefExternal's closed branch: finalise only if the count is (still) zero *)
+Definition zero_check_closed (x : N) (s : state) : state :=
+  match find_id x (s_nodes s) with
+  | Some n => if (n_ref n =? 0)%Z then call_finalizer false x s else s
+  | None => s
+  end.
+
 (* ---- one instruction: the new shared state and the instructions it puts in front of the rest *)
 Definition exec (i : instr) (s : state) : state * list instr :=
   match i with
@@ -125,7 +134,7 @@ Definition exec (i : instr) (s : state) : state * list instr :=
            if (n_ref n - 1 =? 0)%Z then [IZero x (n_ns n) (n_key n) ext] else [])
       end
   | IZero x ns key ext =>
-      (if ext && s_closed s then call_finalizer false x s else cache_delete ns key s, [])
+      (if ext && s_closed s then zero_check_closed x s else cache_delete ns key s, [])
   | IDelReg x =>
       let d := s_next_did s in
       match find_id x (s_nodes s) with
@@ -225,6 +234,31 @@ Definition lstep (L : lstate) (a : action) : option lstate :=
   end.
 
 Definition linit (cacher : bool) (cap : N) : lstate := mkL (init cacher cap) [].
+
+(* the behaviour BEFORE the repair: on a closed cache unRefExternal called callFinalizer without
+   looking at the count again.  Kept only to state the refutation witness. *)
+Definition exec_old (i : instr) (s : state) : state * list instr :=
+  match i with
+  | IZero x ns key true => if s_closed s then (call_finalizer false x s, []) else exec i s
+  | _ => exec i s
+  end.
+Definition lstep_old (L : lstate) (a : action) : option lstate :=
+  match a with
+  | AStep t =>
+      let th := get_thr t (l_thr L) in
+      match t_code th with
+      | [] => None
+      | i :: k =>
+          let (s', new) := exec_old i (l_g L) in
+          Some (mkL s' (set_thr t (mkThread (new ++ k) (t_rl th)) (l_thr L)))
+      end
+  | _ => lstep L a
+  end.
+Fixpoint lrun_old (L : lstate) (tr : list action) : option lstate :=
+  match tr with
+  | [] => Some L
+  | a :: tr' => match lstep_old L a with Some L' => lrun_old L' tr' | None => None end
+  end.
 
 (* Close is called while no other goroutine is inside a cache call *)
 Definition others_idle (t : N) (l : list (N * thread)) : bool :=
